@@ -43,8 +43,9 @@ static void fileLoggerHook(const void *logger, const char *op, int level, size_t
         file = fopen(path.c_str(), "a");
     }
     if (file != nullptr) {
-        fprintf(file, "{\"e\":\"log\",\"id\":\"%p\",\"op\":\"%s\",\"lv\":%d,\"idx\":%zu,\"n\":%zu,\"ne\":%zu,\"nw\":%zu,\"nm\":%zu}\n",
-                logger, op, level, index, issues, errors, warnings, messages);
+        static const char *levels[] = {"none", "E", "W", "M"};
+        fprintf(file, "{\"e\":\"log\",\"id\":\"%p\",\"op\":\"%s\",\"lv\":\"%s\",\"idx\":%zu,\"n\":%zu,\"ne\":%zu,\"nw\":%zu,\"nm\":%zu}\n",
+                logger, op, levels[((level >= 0) && (level <= 2)) ? level + 1 : 0], index, issues, errors, warnings, messages);
         fflush(file);
     }
 }
